@@ -387,6 +387,8 @@ struct EvalCase {
     alts: Vec<(String, J)>,
     /// C13: further files of the group (path, source, is a script); when present the all-templates bundle is executed
     files: Vec<(String, String, bool)>,
+    /// after parsing: TmplGroup::set_inline_script_content(path, module, content) calls, in order
+    post: Vec<(String, String)>,
 }
 #[derive(Clone)]
 enum FileSrc { Text(String), Rep(String, usize) }
@@ -435,7 +437,7 @@ fn ev(family: &'static str, src: String, checks: Vec<(&str, String, bool)>, vars
     EvalCase {
         family, path: "a".into(), src, name: String::new(),
         checks: checks.into_iter().map(|(s, e, q)| (s.to_string(), e, q)).collect(),
-        guards: vec![], vars, pool, pick, flat: None, any_diag: false, bmap1: family == "bmap", alts: vec![], files: vec![],
+        guards: vec![], vars, pool, pick, flat: None, any_diag: false, bmap1: family == "bmap", alts: vec![], files: vec![], post: vec![],
     }
 }
 
@@ -1153,6 +1155,26 @@ fn family_c13(out: &mut Vec<Case>) {
     }
 }
 
+/// C05 through the editing API: replacing the body of one inline <wxs> module must not change which variable any name
+/// of the template resolves to (module names are scopes; their order is their scope index)
+fn family_c05_post(out: &mut Vec<Case>) {
+    let src = "<wxs module=\"alpha\">exports.v = 'A'</wxs><wxs module=\"beta\">exports.v = 'B'</wxs><wxs module=\"gamma\">exports.v = 'G'</wxs><block wx:for=\"{{ l }}\"><p v=\"{{ [alpha.v, beta.v, gamma.v, item] }}\"/></block><q v=\"{{ [alpha.v, beta.v, gamma.v] }}\"/>";
+    for (k, m) in ["alpha", "beta", "gamma"].iter().enumerate() {
+        let mut want = vec!["'A'", "'B'", "'G'"];
+        want[k] = "'N'";
+        let w = want.join(", ");
+        let mut c = ev("c05", src.to_string(), vec![("r:v", format!("[].concat($each($d[\"l\"], (i) => [{w}, i]), [[{w}]])", w = w), true)], vec!["l".into()], pool_of(&["[1, 2]", "[]"]), Pick::All);
+        c.path = format!("c05/post/{}", m);
+        c.post = vec![(m.to_string(), "exports.v = 'N'".to_string())];
+        out.push(Case::Eval(c));
+    }
+    // two edits in a row, and an edit that restores the original text
+    let mut c = ev("c05", src.to_string(), vec![("r:v", "[].concat($each($d[\"l\"], (i) => ['N', 'M', 'G', i]), [['N', 'M', 'G']])".to_string(), true)], vec!["l".into()], pool_of(&["[1]"]), Pick::All);
+    c.path = "c05/post/two".into();
+    c.post = vec![("alpha".into(), "exports.v = 'N'".into()), ("beta".into(), "exports.v = 'M'".into())];
+    out.push(Case::Eval(c));
+}
+
 // ------------------------------------------------------------------------------------------------ C02 families
 fn pc(family: &'static str, files: Vec<(&str, String)>, scripts: Vec<(&str, &str)>, out: &mut Vec<Case>) {
     for dev in [false, true] {
@@ -1311,6 +1333,7 @@ fn all_cases() -> Vec<Case> {
     family_c05(&mut v);
     family_c12(&mut v);
     family_c13(&mut v);
+    family_c05_post(&mut v);
     if known_mode() {
         family_hoist(&mut v);
         for k in KNOWN { if let Some(c) = decode_input(k) { v.push(c); } }
@@ -1337,6 +1360,7 @@ fn encode_eval_alt(c: &EvalCase, tuple: &[usize], alt: Option<(String, J)>) -> S
     if c.any_diag { o.push(("anydiag", J::Bool(true))); }
     if let Some((f, v)) = alt { o.push(("alts", J::Obj(vec![(f, v)]))); } else if !c.alts.is_empty() { o.push(("alts", J::Obj(c.alts.clone()))); }
     if !c.files.is_empty() { o.push(("gfiles", J::Arr(c.files.iter().map(|(p, s, sc)| J::Arr(vec![js(p), js(s), J::Bool(*sc)])).collect()))); }
+    if !c.post.is_empty() { o.push(("post", J::Arr(c.post.iter().map(|(m, t)| J::Arr(vec![js(m), js(t)])).collect()))); }
     jo(o).text()
 }
 fn encode_parse(c: &ParseCase) -> String {
@@ -1368,6 +1392,7 @@ fn decode_input(input: &str) -> Option<Case> {
                 any_diag: j.get("anydiag").map(|d| d.truthy()).unwrap_or(false),
                 bmap1: j.get("alts").is_some(),
                 alts: if let Some(J::Obj(o)) = j.get("alts") { o.clone() } else { vec![] },
+                post: j.get("post").map(|f| f.arr().iter().map(|x| (x.arr()[0].str().unwrap_or("").to_string(), x.arr()[1].str().unwrap_or("").to_string())).collect()).unwrap_or_default(),
                 files: j.get("gfiles").map(|f| f.arr().iter().map(|x| (x.arr()[0].str().unwrap_or("").to_string(), x.arr()[1].str().unwrap_or("").to_string(), x.arr()[2].truthy())).collect()).unwrap_or_default(),
             }))
         }
@@ -1403,6 +1428,7 @@ fn compile(id: usize, case: &Case, seen: &mut std::collections::HashSet<String>)
                 let mut g = TmplGroup::new();
                 let diags = g.add_tmpl(&c2.path, &c2.src);
                 for (p, s, script) in &c2.files { if *script { g.add_script(p, s); } else { let _ = g.add_tmpl(p, s); } }
+                for (m, t) in &c2.post { let _ = g.set_inline_script_content(&c2.path, m, t); }
                 // Note / Warn diagnostics (e.g. `duplicated name` for `{ x: 1, x: 2 }`) do not reject the expression
                 let diag = diags.iter().filter(|d| d.prevent_success()).map(|d| format!("{:?}", d)).collect::<Vec<_>>().join("; ");
                 let code = if c2.files.is_empty() { g.get_tmpl_gen_object(&c2.path).map_err(|e| e.to_string()) } else { g.get_tmpl_gen_object_groups().map_err(|e| e.to_string()) };
